@@ -323,12 +323,12 @@ func roptClient(c int) roptd {
 	return roptd{fmt.Sprintf("RHTTPClient %d", c), c, func(w *world) rp.Option { return rp.WithHTTPClient(w.clients[c]) }}
 }
 
-func newRP(i int, oauth bool, opts []roptd) opd {
+func newRP(i int, oauth bool, t int, opts []roptd) opd {
 	var cs []string
 	for _, o := range opts {
 		cs = append(cs, o.coq)
 	}
-	coq := fmt.Sprintf("(NewRPOIDC %d 4 [%s])", i, strings.Join(cs, "; "))
+	coq := fmt.Sprintf("(NewRPOIDC %d 4 %d [%s])", i, t, strings.Join(cs, "; "))
 	class := "NewRPOIDC"
 	if oauth {
 		coq = fmt.Sprintf("(NewRPOAuth %d 1 [%s])", i, strings.Join(cs, "; "))
@@ -338,6 +338,10 @@ func newRP(i int, oauth bool, opts []roptd) opd {
 		run: func(w *world) {
 			var oo []rp.Option
 			for _, o := range opts {
+				if o.coq == "RDiscoveryURL" {
+					oo = append(oo, rp.WithCustomDiscoveryUrl(issuerOf(t)+oidc.DiscoveryEndpoint))
+					continue
+				}
 				oo = append(oo, o.mk(w))
 			}
 			var r rp.RelyingParty
@@ -345,7 +349,7 @@ func newRP(i int, oauth bool, opts []roptd) opd {
 			if oauth {
 				r, err = rp.NewRelyingPartyOAuth(w.oauthCfg, oo...)
 			} else {
-				r, err = rp.NewRelyingPartyOIDC(bg, opfix.Issuer, "web", "web-secret", "https://web.example.com/cb", w.rpScopes, oo...)
+				r, err = rp.NewRelyingPartyOIDC(bg, issuerOf(t), "web", "web-secret", "https://web.example.com/cb", w.rpScopes, oo...)
 			}
 			if err == nil {
 				w.inst[i] = r
@@ -373,13 +377,40 @@ func clientProbe(call func(w *world)) func(w *world) []int {
 	}
 }
 
-func rpCall(i, c, k int) opd {
+// tenantProbe: clientProbe plus the tenant (issuer) the call's outgoing requests and client
+// assertions were addressed to: t if they all agree, 0 if there were none, 90 on disagreement.
+func tenantProbe(call func(w *world)) func(w *world) []int {
+	cp := clientProbe(call)
+	return func(w *world) []int {
+		n := w.outLen()
+		res := cp(w)
+		return append(res, tenantOf(w.outSince(n)))
+	}
+}
+
+func tenantOf(out []outReq) int {
+	t := 0
+	for _, o := range out {
+		for _, x := range []int{o.tenant, o.aud} {
+			if x == 0 {
+				continue
+			}
+			if t != 0 && t != x {
+				return 90
+			}
+			t = x
+		}
+	}
+	return t
+}
+
+func rpCall(i, c, k, tn int) opd {
 	o := opd{coq: fmt.Sprintf("(RPCall %d %d %s)", i, c, rpcallNames[k]), kind: "rp", inst: i, class: "RPCall", sub: rpcallNames[k]}
 	var code string
 	o.needs = func(w *world) {
-		w.tokens()
+		w.tokensT(tn)
 		if k == 1 {
-			code = w.codeFlow("web", "https://web.example.com/cb")
+			code = w.codeFlowT(tn, "web", "https://web.example.com/cb")
 		}
 	}
 	o.run = func(w *world) {
@@ -387,7 +418,7 @@ func rpCall(i, c, k int) opd {
 		if !ok {
 			return
 		}
-		t := w.tokens()
+		t := w.tokensT(tn)
 		var err error
 		switch k {
 		case 0:
@@ -421,11 +452,16 @@ func rpCall(i, c, k int) opd {
 			fmt.Fprintln(os.Stderr, "c20 debug:", o.coq, err)
 		}
 	}
-	o.probe = clientProbe(func(w *world) { o.run(w) })
+	o.probe = tenantProbe(func(w *world) { o.run(w) })
 	return o
 }
 
 // ---------------------------------------------------------------- rs / tokenexchange / key set / bare client calls
+
+// the JWT-profile client id (and key id "kid1") is IDENTICAL for all instances of one run and
+// differs between runs, so that unnamed process-wide state keyed by identifiers cannot leak
+// from one run (e.g. "together") into another ("alone").
+func (w *world) jwtClientID() string { return fmt.Sprintf("pkjwt-r%d", w.runID) }
 
 func optc(c int) string {
 	if c < 0 {
@@ -434,22 +470,22 @@ func optc(c int) string {
 	return fmt.Sprintf("(Some %d)", c)
 }
 
-func newRS(i, c int, static bool, jwt bool) opd {
-	return opd{coq: fmt.Sprintf("(NewRS %d %s %v)", i, optc(c), static), kind: "hc", inst: i, class: "NewRS", sub: fmt.Sprintf("static=%v-jwt=%v", static, jwt),
+func newRS(i, c int, static bool, jwt bool, t int) opd {
+	return opd{coq: fmt.Sprintf("(NewRS %d %s %v %d)", i, optc(c), static, t), kind: "hc", inst: i, class: "NewRS", sub: fmt.Sprintf("static=%v-jwt=%v", static, jwt),
 		run: func(w *world) {
 			var oo []rs.Option
 			if c >= 0 {
 				oo = append(oo, rs.WithClient(w.clients[c]))
 			}
 			if static {
-				oo = append(oo, rs.WithStaticEndpoints(opfix.Issuer+"/oauth/token", opfix.Issuer+"/oauth/introspect"))
+				oo = append(oo, rs.WithStaticEndpoints(issuerOf(t)+"/oauth/token", issuerOf(t)+"/oauth/introspect"))
 			}
 			var r rs.ResourceServer
 			var err error
 			if jwt {
-				r, err = rs.NewResourceServerJWTProfile(bg, opfix.Issuer, "pkjwt", "kid1", rsaPEM, oo...)
+				r, err = rs.NewResourceServerJWTProfile(bg, issuerOf(t), w.jwtClientID(), "kid1", rsaPEM, oo...)
 			} else {
-				r, err = rs.NewResourceServerClientCredentials(bg, opfix.Issuer, "web", "web-secret", oo...)
+				r, err = rs.NewResourceServerClientCredentials(bg, issuerOf(t), "web", "web-secret", oo...)
 			}
 			if err == nil {
 				w.inst[i] = r
@@ -458,28 +494,28 @@ func newRS(i, c int, static bool, jwt bool) opd {
 		}}
 }
 
-func newTE(i, c int, static bool, variant int) opd {
-	return opd{coq: fmt.Sprintf("(NewTE %d %s %v)", i, optc(c), static), kind: "hc", inst: i, class: "NewTE", sub: fmt.Sprintf("static=%v-v%d", static, variant),
+func newTE(i, c int, static bool, variant int, tn int) opd {
+	return opd{coq: fmt.Sprintf("(NewTE %d %s %v %d)", i, optc(c), static, tn), kind: "hc", inst: i, class: "NewTE", sub: fmt.Sprintf("static=%v-v%d", static, variant),
 		run: func(w *world) {
 			var oo []func(*tokenexchange.OAuthTokenExchange)
 			if c >= 0 {
 				oo = append(oo, tokenexchange.WithHTTPClient(w.clients[c]))
 			}
 			if static {
-				oo = append(oo, tokenexchange.WithStaticTokenEndpoint(opfix.Issuer, opfix.Issuer+"/oauth/token"))
+				oo = append(oo, tokenexchange.WithStaticTokenEndpoint(issuerOf(tn), issuerOf(tn)+"/oauth/token"))
 			}
 			var t tokenexchange.TokenExchanger
 			var err error
 			switch variant {
 			case 0:
-				t, err = tokenexchange.NewTokenExchangerClientCredentials(bg, opfix.Issuer, "web", "web-secret", oo...)
+				t, err = tokenexchange.NewTokenExchangerClientCredentials(bg, issuerOf(tn), "web", "web-secret", oo...)
 			case 1:
-				t, err = tokenexchange.NewTokenExchanger(bg, opfix.Issuer, oo...)
+				t, err = tokenexchange.NewTokenExchanger(bg, issuerOf(tn), oo...)
 			default:
 				var s jose.Signer
 				s, err = client.NewSignerFromPrivateKeyByte(rsaPEM, "kid1")
 				if err == nil {
-					t, err = tokenexchange.NewTokenExchangerJWTProfile(bg, opfix.Issuer, "pkjwt", s, oo...)
+					t, err = tokenexchange.NewTokenExchangerJWTProfile(bg, issuerOf(tn), w.jwtClientID(), s, oo...)
 				}
 			}
 			if err == nil {
@@ -489,48 +525,69 @@ func newTE(i, c int, static bool, variant int) opd {
 		}}
 }
 
-func newKeySet(i, c int) opd {
-	return opd{coq: fmt.Sprintf("(NewKeySet %d %d)", i, c), kind: "", inst: i, class: "NewKeySet", sub: "remote",
-		run: func(w *world) { w.inst[i] = rp.NewRemoteKeySet(w.clients[c], opfix.Issuer+"/keys") }}
+func newKeySet(i, c, t int) opd {
+	return opd{coq: fmt.Sprintf("(NewKeySet %d %d %d)", i, c, t), kind: "", inst: i, class: "NewKeySet", sub: "remote",
+		run: func(w *world) { w.inst[i] = rp.NewRemoteKeySet(w.clients[c], issuerOf(t)+"/keys") }}
 }
 
-func rsIntrospect(i, c int) opd {
+func rsIntrospect(i, c, tn int) opd {
 	o := opd{coq: fmt.Sprintf("(RSIntrospect %d %d)", i, c), kind: "hc", inst: i, class: "RSIntrospect", sub: "introspect"}
-	o.needs = func(w *world) { w.tokens() }
+	o.needs = func(w *world) { w.tokensT(tn) }
 	o.run = func(w *world) {
 		if r, ok := w.inst[i].(rs.ResourceServer); ok {
-			if resp, err := rs.Introspect[*oidc.IntrospectionResponse](bg, r, w.tokens().access); err == nil && resp.Active {
+			if resp, err := rs.Introspect[*oidc.IntrospectionResponse](bg, r, w.tokensT(tn).access); err == nil && resp.Active {
 				okInc("RSIntrospect")
 			}
 		}
 	}
-	o.probe = clientProbe(func(w *world) { o.run(w) })
+	o.probe = tenantProbe(func(w *world) { o.run(w) })
 	return o
 }
 
-func teExchange(i, c int) opd {
+func teExchange(i, c, tn int) opd {
 	o := opd{coq: fmt.Sprintf("(TEExchange %d %d)", i, c), kind: "hc", inst: i, class: "TEExchange", sub: "exchange"}
-	o.needs = func(w *world) { w.tokens() }
+	o.needs = func(w *world) { w.tokensT(tn) }
 	o.run = func(w *world) {
 		if t, ok := w.inst[i].(tokenexchange.TokenExchanger); ok {
-			if _, err := tokenexchange.ExchangeToken(bg, t, w.tokens().access, oidc.AccessTokenType, "", "", nil, nil, []string{"openid"}, oidc.AccessTokenType); err == nil {
+			if _, err := tokenexchange.ExchangeToken(bg, t, w.tokensT(tn).access, oidc.AccessTokenType, "", "", nil, nil, []string{"openid"}, oidc.AccessTokenType); err == nil {
 				okInc("TEExchange")
 			}
 		}
 	}
-	o.probe = clientProbe(func(w *world) { o.run(w) })
+	o.probe = tenantProbe(func(w *world) { o.run(w) })
 	return o
 }
 
-func ksVerify(i, c int) opd {
+func ksVerify(i, c, tn int) opd {
 	o := opd{coq: fmt.Sprintf("(KSVerify %d %d)", i, c), kind: "", inst: i, class: "KSVerify", sub: "verify"}
-	o.needs = func(w *world) { w.tokens() }
+	o.needs = func(w *world) { w.tokensT(1); w.tokensT(2) }
+	// which tenant's id tokens does this key set accept? (both tenants publish the SAME kid)
+	o.probe = func(w *world) []int {
+		ks, ok := w.inst[i].(oidc.KeySet)
+		if !ok {
+			return []int{99}
+		}
+		acc := 0
+		for _, t := range []int{1, 2} {
+			jws, err := jose.ParseSigned(w.tokensT(t).id, []jose.SignatureAlgorithm{jose.ES256, jose.RS256})
+			if err != nil {
+				return []int{98}
+			}
+			if _, err := ks.VerifySignature(bg, jws); err == nil {
+				if acc != 0 {
+					return []int{91}
+				}
+				acc = t
+			}
+		}
+		return []int{acc}
+	}
 	o.run = func(w *world) {
 		ks, ok := w.inst[i].(oidc.KeySet)
 		if !ok {
 			return
 		}
-		jws, err := jose.ParseSigned(w.tokens().id, []jose.SignatureAlgorithm{jose.ES256, jose.RS256})
+		jws, err := jose.ParseSigned(w.tokensT(tn).id, []jose.SignatureAlgorithm{jose.ES256, jose.RS256})
 		if err != nil {
 			return
 		}
